@@ -18,7 +18,7 @@ def work(args):
     out = []
     for tr, o in res["violations"][:8]:
         try:
-            tr2, _ = R.ddmin(tr, runf, o["clause"], max_runs=300)
+            tr2, _ = R.ddmin(tr, runf, o["clause"], max_runs=300, in_domain=None if os.environ.get("FREE_SHRINK") else getattr(prop, "in_domain", None))
             o2 = runf(tr2)
         except Exception as e:
             tr2, o2 = tr, o
